@@ -438,6 +438,123 @@ def replay_strings(name):
     return r["status"] == "violation" and r["detail"]
 
 
+
+# ------------------------------------------------------------------ chains of using(): later settings win, absent settings inherit
+def _truncating_handlers():
+    from passlib import registry
+    out = []
+    for n in registry.list_crypt_handlers():
+        try:
+            h = registry.get_crypt_handler(n)
+        except Exception:
+            continue
+        if "truncate_error" in getattr(h, "setting_kwds", ()):
+            out.append(n)
+    return out
+
+
+def ob_truncate_chain(name):
+    """H.using(truncate_error=a).using(truncate_error=b): a, b symbolic booleans, each symbolically present or absent"""
+    from passlib import registry
+    import z3 as _z
+    H = registry.get_crypt_handler(name)
+    base = getattr(H, "wrapped", H)
+    a, b, ha, hb = _z.Bool("a"), _z.Bool("b"), _z.Bool("has_a"), _z.Bool("has_b")
+    default = bool(base.truncate_error)
+    snap = _snapshot(H)
+
+    def run():
+        k1 = {"truncate_error": bool(SBool(a))} if bool(SBool(ha)) else {}
+        k2 = {"truncate_error": bool(SBool(b))} if bool(SBool(hb)) else {}
+        c1 = H.using(**k1)
+        c2 = c1.using(**k2)
+        t1, t2 = getattr(c1, "wrapped", c1), getattr(c2, "wrapped", c2)
+        return bool(t1.truncate_error), bool(t2.truncate_error), bool(base.truncate_error), _snap_changed(snap)
+    paths = explore(run)
+    for p in paths:
+        if p.exc is not None:
+            return inconclusive("using() raised %r" % (p.exc,))
+        e1, e2, eb, ch = p.result
+        w1 = _z.If(ha, a, _z.BoolVal(default))
+        w2 = _z.If(hb, b, w1)
+        r_, m = valid(_z.And(_z.BoolVal(e1) == w1, _z.BoolVal(e2) == w2, _z.BoolVal(eb == default), _z.BoolVal(ch is None)), p.cond())
+        if r_ == "sat":
+            vals = dict((k, bool(_z.is_true(m.eval(v, True)))) for k, v in (("a", a), ("b", b), ("has_a", ha), ("has_b", hb)))
+            return violation("%s.using(truncate_error..).using(truncate_error..) with %r: policies %r/%r, parent %r" %
+                             (name, vals, e1, e2, eb), "using:truncate:%s" % base.name,
+                             {"module": "harness.c09", "func": "replay_truncate_chain", "args": dict(vals, name=name)})
+        if r_ != "unsat":
+            return inconclusive("solver %s" % r_)
+    return ok("%s: chained using(truncate_error) - later setting wins, absent inherits, parent untouched (%d paths)" % (name, len(paths)),
+              paths=len(paths))
+
+
+def replay_truncate_chain(name, a, b, has_a, has_b):
+    from passlib import registry, exc
+    H = registry.get_crypt_handler(name)
+    base = getattr(H, "wrapped", H)
+    default = bool(base.truncate_error)
+    c1 = H.using(**({"truncate_error": a} if has_a else {}))
+    c2 = c1.using(**({"truncate_error": b} if has_b else {}))
+    w1 = a if has_a else default
+    w2 = b if has_b else w1
+    secret = "x" * (base.truncate_size + 3)
+    kw = {"user": "u"} if "user" in getattr(H, "context_kwds", ()) else {}
+    for c, w, label in ((c1, w1, "first"), (c2, w2, "second")):
+        try:
+            c.hash(secret, **kw)
+            got = False
+        except exc.PasswordTruncateError:
+            got = True
+        except exc.PasswordSizeError:
+            got = True
+        if got != w:
+            return "%s: the %s derived hasher %s a %d-byte password, configured truncate_error=%r" % (
+                name, label, "refuses" if got else "silently truncates", len(secret), w)
+    return False
+
+
+def ob_ident_chain(name):
+    """ident / default settings survive a further using() call and do not leak into the parent (finite: every ident)"""
+    import warnings
+    from passlib import registry
+    H = registry.get_crypt_handler(name)
+    base = getattr(H, "wrapped", H)
+    idents = list(getattr(base, "ident_values", ()) or ())
+    bad = []
+    snap = _snapshot(H)
+    with warnings.catch_warnings():
+        warnings.simplefilter("ignore")
+        for ident in idents:
+            try:
+                c1 = H.using(ident=ident)
+            except (ValueError, TypeError):
+                continue
+            c2 = c1.using()
+            t1, t2 = getattr(c1, "wrapped", c1), getattr(c2, "wrapped", c2)
+            if t1.default_ident != ident or t2.default_ident != ident:
+                bad.append((ident, t1.default_ident, t2.default_ident))
+            for other in idents:
+                try:
+                    c3 = c1.using(ident=other)
+                except (ValueError, TypeError):
+                    continue
+                t3 = getattr(c3, "wrapped", None) or c3
+                if t3.default_ident != other or t1.default_ident != ident:
+                    bad.append((ident, other, t3.default_ident))
+        ch = _snap_changed(snap)
+    if bad or ch:
+        return violation("%s: ident setting not carried through chained using(): %r %s" % (name, bad[:3], ch or ""),
+                         "using:ident:%s" % base.name, {"module": "harness.c09", "func": "replay_ident_chain", "args": {"name": name}})
+    return ok("%s: %d idents carried through chained using(), parent untouched" % (name, len(idents)), paths=len(idents) ** 2,
+              verdict="finite-exhaustive", nontrivial=False)
+
+
+def replay_ident_chain(name):
+    r = ob_ident_chain(name)
+    return r["status"] == "violation" and r["detail"]
+
+
 # ------------------------------------------------------------------ scrypt block_size / parallelism
 def ob_scrypt():
     """scrypt.using(block_size, parallelism, rounds): accepted exactly when the combination is valid for scrypt and
@@ -536,6 +653,16 @@ def run(tier, seed, t0, only=None):
     for n in names:
         obs.append(Ob("strings-chains[%s]" % n, ob_strings_and_chains, {"name": n}, timeout=300))
     obs.append(Ob("scrypt-settings", ob_scrypt, timeout=900))
+    for n in _truncating_handlers():
+        obs.append(Ob("truncate-chain[%s]" % n, ob_truncate_chain, {"name": n}, timeout=300))
+    from passlib import registry
+    for n in registry.list_crypt_handlers():
+        try:
+            h = registry.get_crypt_handler(n)
+        except Exception:
+            continue
+        if getattr(getattr(h, "wrapped", h), "ident_values", None):
+            obs.append(Ob("ident-chain[%s]" % n, ob_ident_chain, {"name": n}, timeout=300))
     if only:
         obs = [o for o in obs if only in o.name]
     results = runner.run_obligations(obs)
